@@ -13,7 +13,8 @@ def ordOf (s : String) : Option Ord :=
   | "AcqRel" => some .acqRel | "SeqCst" => some .seqCst | _ => none
 
 def parseProg (p : String) : List Call :=
-  p.toList.filterMap fun c => if c == 's' then some .set else if c == 'g' then some .get else if c == 'i' then some .isSet else none
+  -- `m` (a macro invocation on the global client) is a `get` as far as the holder is concerned
+  p.toList.filterMap fun c => if c == 's' then some .set else if c == 'g' || c == 'm' then some .get else if c == 'i' then some .isSet else none
 
 /-- the event token and, if the call completes with this step, its result -/
 def describe (o : Ords) (s : St) (t i : Nat) : Option (String × Option String) :=
@@ -131,7 +132,7 @@ def ckObs (progs : List String) (obs : String) : Option (String × String) :=
   if badOrder then some ("C18", "the completion flag was published before the value was written") else
   let losersTouch := calls.any fun (t, k, evs, _) => k == "s" && some t ≠ winner && evs.any fun e => evBody e == "G" || (evBody e).startsWith "S."
   if losersTouch then some ("C18", "a later set disturbed the stored value") else
-  let gets := calls.filter fun (_, k, _, _) => k == "g"
+  let gets := calls.filter fun (_, k, _, _) => k == "g" || k == "m"
   let wrongGet := gets.any fun (_, _, evs, r) =>
     let loadSeq := (evs.head?.map evSeq).getD 0
     let after : Bool := match storeSeq with | some s => decide (loadSeq > s) | none => false
@@ -173,5 +174,12 @@ def runHolder (_prop : String) (f : List String) (obsS : String) : Verdict :=
       (if progsS.startsWith "G:" then ["global-functions"] else [])
     ⟨model == obsS, obsS, model, v, tags, false⟩
   | _ => badCase
+
+/-- real threads under Miri (supporting evidence for the modelling assumption "what `get` / `is_set` do
+through the cell pointer is a read"): a data race or aliasing violation it reports is a C18 violation -/
+def runMiri (_prop : String) (_f : List String) (obsS : String) : Verdict :=
+  if obsS == "ok" then ⟨true, "ok", "ok", none, ["miri"], false⟩
+  else if obsS == "miri-unavailable" then ⟨true, obsS, obsS, none, ["miri-unavailable"], false⟩
+  else ⟨true, obsS, obsS, some ("C18", "real threads on the holder under Miri: " ++ obsS), ["miri"], false⟩
 
 end Drv.HolderE
